@@ -29,7 +29,7 @@ def verify_target(job):
     target, tier = job
     t0 = time.time()
     out = {"target": target, "obligations": [], "trivial": 0, "engine_error": None, "canary": "ok",
-           "source": None, "failed": [], "seconds": 0.0, "trusted": []}
+           "source": None, "failed": [], "seconds": 0.0, "trusted": [], "called": []}
     try:
         from pyvc.verifier import Verifier
         from pyvc.solve import discharge, smt2_of
@@ -74,6 +74,7 @@ def verify_target(job):
             elif len(cans) > 1 and all(contradictory(c) for c in cans[1:12]):
                 out["canary"] = "vacuous: every explored exit of %s has contradictory assumptions" % target
         out["trusted"] = sorted(libspec.TRUSTED)
+        out["called"] = sorted(libspec.CALLED)
     except Exception:
         out["engine_error"] = "CRASH " + traceback.format_exc()[-1500:]
     out["seconds"] = time.time() - t0
@@ -154,6 +155,27 @@ def clause_key(name):
     return "%s:%s" % (m.group(1), m.group(2)) if m else name
 
 
+def callee_contracts(called, targets):
+    """Contracts of repository functions used at call sites of this property's targets: discharged here, discharged by
+    another property's check, or assumed (never discharged)."""
+    import props
+    mine = {t.split("#")[0] for t in targets}
+    where = {}
+    for pid, cfg in props.PROPS.items():
+        for t in cfg.get("targets", []):
+            where.setdefault(t.split("#")[0], []).append(pid)
+    out = []
+    for q in sorted(called):
+        if q in mine:
+            continue
+        if q in where:
+            out.append("contract of %s used at call sites: discharged by the check of %s" % (q, ", ".join(sorted(set(where[q])))))
+        else:
+            out.append("ASSUMED contract of %s used at call sites: not discharged by any check (outside the subset); "
+                       "validated by the bounded runs of this property" % q)
+    return out
+
+
 def main(argv=None):
     ap = argparse.ArgumentParser()
     ap.add_argument("prop")
@@ -187,6 +209,7 @@ def main(argv=None):
     functions_under_contract, functions_proved = [], []
     per_obl = []
     trusted = set(cfg.get("trusted", []))
+    called = set()
     replay_dir = os.path.join(HERE, "replays", pid)
     os.makedirs(replay_dir, exist_ok=True)
     for fn in os.listdir(replay_dir):
@@ -251,6 +274,7 @@ def main(argv=None):
         solver_s += sum(o["seconds"] for o in r["obligations"])
         per_obl.extend(r["obligations"])
         trusted.update(r.get("trusted", []))
+        called.update(r.get("called", []))
         info = dict(r["source"] or {"qualname": t})
         info.update({"obligations": n, "discharged": ok, "trivially_true": r["trivial"], "vc_seconds": round(r["seconds"], 2)})
         functions_under_contract.append(info)
@@ -375,7 +399,7 @@ def main(argv=None):
             "obligations": obligations, "discharged": discharged,
             "checker_cmd": "./check %s --tier %s  (pyvc: AST of /repo -> VCs -> z3 %s, cvc5 fallback%s)" % (
                 pid, tier, _z3v(), "; lean 4 + Mathlib" if cfg.get("lean") else ""),
-            "trusted_base": sorted(trusted),
+            "trusted_base": sorted(trusted) + callee_contracts(called, targets),
             "functions_under_contract": functions_under_contract,
             "functions_all_obligations_discharged": functions_proved,
             "lemmas": [t for t in targets if t.startswith("lemma:")],
